@@ -154,7 +154,13 @@ let judge (s : step) (st : ostate) : (fkind * string) list =
      | Some ["none"] -> if total > 0 then add Enum "enumerate returned None for a satisfiable formula"
      | Some toks ->
        let cfgs = cfgs_of toks in
-       if not (List.for_all (cfg_ok st.n) cfgs)
+       (* the harness asks for at most 5000 configurations: beyond that a page of 5000 distinct models *)
+       let page_ok = total > 5000 && List.length cfgs = 5000
+                     && List.for_all (cfg_ok st.n) cfgs
+                     && (let ms = List.sort_uniq compare (List.map cfg_mask cfgs) in
+                         List.length ms = 5000 && List.for_all (fun m -> List.mem m st.models) ms) in
+       if page_ok then ()
+       else if not (List.for_all (cfg_ok st.n) cfgs)
        || List.sort compare (List.map cfg_mask cfgs) <> List.sort compare st.models then
          add Enum (Printf.sprintf "a full enumeration cycle returned %d configurations that are not exactly the %d models"
                      (List.length cfgs) total)
@@ -213,7 +219,10 @@ let wf_parts c n =
     "complete", Model.complete c nn; "det_cert", Model.det_cert c; "unique_leaves", Model.unique_leaves c;
     "lits_nonzero", Model.lits_nonzero c; "all_reachable", Model.all_reachable c ]
 
-type centry = { c_add : int list list; c_rmv : int list list; right : bool; stored_at_push : int list list }
+(* an entry of the undo cache: the key, whether it holds a whole graph (Recompile) or a sub-DAG, and
+   the clause list / variable count from BEFORE the edit, which an Undo restores (repair F25) *)
+type centry = { c_add : int list list; c_rmv : int list list; right : bool;
+                stored_before : int list list; nvars_before : int }
 type cache = Known of centry list | Unknown
 
 let sig_of_kind = function
@@ -267,8 +276,13 @@ let check (b : block) : verdict list =
         | None -> []) in
     let ig_nvars = ref n0 in
     let cache = ref (Known []) in
+    let stored_known = ref true in     (* false after an Undo of an entry the cache model does not know *)
     (* ---- oracle-side state ---- *)
     let hist = ref [init] in           (* states, newest first *)
+    (* further states that fit every answer so far: where the two readings of an inverse edit (the
+       edit_spec of the inverse / the previous state restored) give the same answers but different
+       clause sets, the implementation may follow either, and later edits tell them apart *)
+    let alts : ostate list ref = ref [] in
     let prev_edit = ref None in
     let judged_ok = ref true in        (* false after the first failing step: later steps are not judged *)
     let latent : string option ref = ref None in
@@ -303,10 +317,12 @@ let check (b : block) : verdict list =
           let rmvs = List.filter_map (fun (a, c) -> if a then None else Some c) e in
           let strat = match s.strategy with Some x -> x | None -> "-" in
           (* ---------------- model: dispatch ---------------- *)
-          let root0 = match !prev_circ with
-            | Some _ -> (match List.assoc_opt "root0" (match List.filter (fun (x : step) -> x.k = s.k - 1) steps with
+          let prev_flag key = match !prev_circ with
+            | Some _ -> (match List.assoc_opt key (match List.filter (fun (x : step) -> x.k = s.k - 1) steps with
                 | p :: _ -> p.bat | [] -> []) with Some ["1"] -> Some true | Some ["0"] -> Some false | _ -> None)
             | None -> None in
+          let root0 = prev_flag "root0" in
+          let fromcnf = prev_flag "fromcnf" in
           (* find_and_remove = cache_find over the keys (first matching entry from the front) *)
           let hit = match !cache with
             | Unknown -> None
@@ -316,16 +332,17 @@ let check (b : block) : verdict list =
                | Some _, Some _ | None, None -> ()
                | _ -> add (Diff ("cache_find", ctx ^ ": cache_find and cache_matches disagree")));
               Some found in
-          (match s.panic, hit, root0 with
-           | None, Some h, Some r0 ->
+          (match s.panic, hit, root0, fromcnf with
+           | None, Some h, Some r0, Some fc when !stored_known ->
              let facts = { E.cache_hit = (h <> None); ig_nvars = Conv.z_of_int !ig_nvars;
-                           stored_cnf_empty = (!stored = []); root_is_node0 = r0 } in
+                           stored_cnf_empty = (!stored = []); root_is_node0 = r0; from_cnf = fc } in
              bump "C11_dispatch_compared";
              (match E.dispatch facts (zcs op_add) (zcs op_rmv) with
               | E.Decided d ->
                 let name = match d with
                   | E.StTautology -> "Tautology" | E.StUnitClause -> "UnitClause"
-                  | E.StSubDAGReplacement -> "SubDAGReplacement" | E.StRecompile -> "Recompile" | E.StUndo -> "Undo" in
+                  | E.StSubDAGReplacement -> "SubDAGReplacement" | E.StRecompile -> "Recompile" | E.StUndo -> "Undo"
+                  | E.StError -> "Error" in
                 if name <> strat then
                   add (Diff ("dispatch", Printf.sprintf "%s: model decides %s, implementation answered %s" ctx name strat))
               | E.GraphDependent ->
@@ -334,6 +351,7 @@ let check (b : block) : verdict list =
            | _ -> bump "C11_dispatch_facts_unknown");
           (* model-side bookkeeping of the stored clause list / cache *)
           let stored_before = !stored in
+          let nvars_before = !ig_nvars in
           (match strat with
            | "UnitClause" ->
              (match op_add with
@@ -343,12 +361,12 @@ let check (b : block) : verdict list =
              (* add_unit_clause re-creates the cache (repair F17): E.cache_after_unit = [] whatever it held *)
              cache := Known []
            | "SubDAGReplacement" | "Recompile" ->
-             (* Recompile adjusts the stored list twice (transform_to_cnf_from_starting_cnf, then
-                recompile_everything): E.recompile_stored, finding K38 *)
+             (* the edit is applied to the stored list once, also for Recompile (E.recompile_stored, repair F23) *)
              stored := sets_of_zz ((if strat = "Recompile" then E.recompile_stored else E.adjust_intern_cnf)
                                      (zcs !stored) (zcs op_add) (zcs op_rmv));
              ig_nvars := max !ig_nvars (maxvar op_add);
-             let en = { c_add = op_add; c_rmv = op_rmv; right = (strat = "Recompile"); stored_at_push = !stored } in
+             let en = { c_add = op_add; c_rmv = op_rmv; right = (strat = "Recompile");
+                        stored_before; nvars_before } in
              cache := (if en.right then Known [en]
                        else match !cache with Known [] -> Known [en] | _ -> Unknown)
            | "Tautology" ->
@@ -360,10 +378,12 @@ let check (b : block) : verdict list =
              (match hit with
               | Some (Some en) ->
                 let rest = match !cache with Known l -> List.filter (fun x -> x != en) l | Unknown -> [] in
-                let en' = { c_add = en.c_rmv; c_rmv = en.c_add; right = en.right; stored_at_push = !stored } in
-                if en.right then begin stored := en.stored_at_push; cache := Known [en'] end
+                (* an Undo brings back the clause list and the variable count cached with the entry (F25) *)
+                let en' = { c_add = en.c_rmv; c_rmv = en.c_add; right = en.right; stored_before; nvars_before } in
+                stored := en.stored_before; ig_nvars := en.nvars_before;
+                if en.right then cache := Known [en']
                 else cache := (if rest = [] then Known [en'] else Unknown)
-              | _ -> cache := Unknown)
+              | _ -> cache := Unknown; stored_known := false)
            | _ -> ());
           (* ---------------- oracle ---------------- *)
           let is_inverse =
@@ -380,21 +400,20 @@ let check (b : block) : verdict list =
                   if h.n < p.n && h.n >= maxvar cls' then Some { p with n = h.n; models = models_of_cls cls' h.n } else None)
                 (List.sort_uniq compare !hist)
             | _ -> [] in
-          let cands = (match primary with Some p -> [p] | None -> []) @ (match alt with Some a -> [a] | None -> []) @ shrunk in
+          let cands = (match primary with Some p -> [p] | None -> []) @ (match alt with Some a -> [a] | None -> []) @ shrunk
+                      @ List.filter_map (fun a -> edit_spec a adds rmvs) !alts in
           (* ---- the input class of this step (decided from the history and the returned strategy only,
              in a fixed order) and the first class met earlier in this history (a defect of an earlier
              step may stay invisible until a later one: the stored clause list is already wrong) ---- *)
           let new_var = List.exists (fun c -> List.exists (fun l -> abs l > st.n) c) adds in
           let unit_old = (match adds, rmvs with [[l]], [] -> abs l <= st.n | _ -> false) in
-          (* the shape of op_add that the unit path needs: exactly one added clause (after
-             reduce_clause; a repeated clause counts twice), of one literal, over an existing variable
-             (the unit path is taken when, in addition, nothing is removed: C11_dispatch_unit_iff) *)
-          let unit_shape = (match op_add with [[l]] -> abs l <= st.n | _ -> false) in
           let earlier_undo = List.mem "Undo" !strategies in
           let earlier_unit = List.mem "UnitClause" !strategies in
           let earlier_subdag = List.mem "SubDAGReplacement" !strategies in
           let own_class : string option =
             if mode = "nnf" then begin
+              (* K3 / K20 (repaired by F27 / F28): detectors; K21: a removal on an nnf-loaded model is
+                 refused (Error, since F28) - the inverse edit does not restore the previous answers *)
               if new_var && strat = "Tautology" then Some "edit:new-variable-clause"
               else if new_var && strat = "Recompile" then Some "edit:nnf-recompile-forgets-model"
               else if rmvs <> [] then Some "edit:nnf-removal"
@@ -434,38 +453,58 @@ let check (b : block) : verdict list =
               else if strat = "Undo" && not is_inverse && inverse_of_older then Some "edit:undo-stale"
               else if strat = "Undo" && not is_inverse then Some "edit:undo-partial-match"
               else if strat = "UnitClause" && rmvs <> [] then Some "edit:unit-add-drops-removal"
-              else if earlier_undo then Some "edit:after-undo-stale-cnf"
+              (* K27 (repaired by F24), by the observable misbehaviour: an edit with effective added
+                 clauses on an empty clause set answered Tautology *)
+              else if adds <> [] && cls = [] && strat = "Tautology" then Some "edit:add-on-empty-cnf"
+              (* K29 (repaired by F27): a unit clause over a new variable answered by a sub-DAG replacement *)
+              else if new_var && strat = "SubDAGReplacement" && (match op_add, rmvs with [[_]], [] -> true | _ -> false)
+              then Some "edit:new-variable-subdag"
+              (* ---- recorded findings (input classes) ---- *)
               else if rmvs <> [] && unit_reducible cls then Some "edit:clause-removal"
-              (* K38: Recompile applies the edit to the stored clause list twice; a clause of the formula
-                 (not removed, not re-added) that the unit clauses of the edited formula shorten to one of
-                 the removed clauses is removed in the second round *)
-              else if strat = "Recompile" && second_round_differs cls (max st.n (maxvar adds)) adds rmvs then Some "edit:recompile-removes-shortened-clause"
-              (* K27: empty clause list and an edit that does not take the unit path (since F16 also a
-                 unit clause that comes with removals): the general path returns early *)
-              else if adds <> [] && not (unit_shape && rmvs = []) && cls = [] then Some "edit:add-on-empty-cnf"
               else if present_rmvs <> [] && core_shrinks && strat = "SubDAGReplacement" then Some "edit:removal-frees-core"
-              else if new_var && strat = "SubDAGReplacement" then Some "edit:new-variable-subdag"
               else if free_feature && strat = "SubDAGReplacement" then Some "edit:free-feature-subdag"
+              (* ---- input classes of REPAIRED defects (detectors: no finding line; they come after the
+                 recorded classes because they are broad: "some earlier step was an Undo / a unit edit") ---- *)
+              (* K38 (F23): Recompile applied the edit to the stored clause list twice *)
+              else if strat = "Recompile" && second_round_differs cls (max st.n (maxvar adds)) adds rmvs then Some "edit:recompile-removes-shortened-clause"
+              (* K22 / K33 (F25): the clause list was not restored by an Undo *)
+              else if earlier_undo then Some "edit:after-undo-stale-cnf"
+              (* K30 (recorded; F26 repaired the stale literal maps, what is left is the sub-DAG selection
+                 on a graph that a unit edit has changed) *)
               else if earlier_unit && strat = "SubDAGReplacement" then Some "edit:subdag-after-unit-edit"
+              (* K32 (F26) *)
               else if strat = "UnitClause" && earlier_unit && earlier_subdag then Some "edit:unit-after-subdag"
               else None
             end in
           let cls_for_failure = match own_class with Some c -> Some c | None -> !latent in
           let step_failed = ref false in
+          (* the property is about edits that leave the formula satisfiable: when the state the
+             oracle follows (e.g. the "previous answers restored" reading of an inverse edit) makes
+             this edit unsatisfiable the history has left the input space *)
+          if !judged_ok && cands <> [] && List.for_all (fun (c : ostate) -> c.models = []) cands then begin
+            bump "C11_histories_left_the_input_space_unsatisfiable";
+            judged_ok := false
+          end;
           if !judged_ok && cands <> [] then begin
             bump "C11_steps_judged";
             match s.panic with
             | Some msg ->
               judged_ok := false; step_failed := true;
               let signature =
-                if mode = "cnf" && earlier_unit then "edit:panic-after-unit-edit"
-                else match cls_for_failure with Some c -> c ^ ":panic" | None -> "edit:panic" in
+                match own_class with
+                | Some c -> c ^ ":panic"
+                | None ->
+                  (* K31 (F26): a panic after a unit edit of the same history *)
+                  if mode = "cnf" && earlier_unit then "edit:panic-after-unit-edit"
+                  else match !latent with Some c -> c ^ ":panic" | None -> "edit:panic" in
               add (Viol (signature, Printf.sprintf "%s panicked: %s" ctx msg))
             | None ->
               let verdicts = List.map (fun c -> (c, judge s c)) cands in
               (match List.find_opt (fun (_, f) -> f = []) verdicts with
                | Some (c, _) ->
-                 hist := c :: !hist
+                 hist := c :: !hist;
+                 alts := List.sort_uniq compare
+                     (List.filter_map (fun (c', f) -> if f = [] && c' <> c then Some c' else None) verdicts)
                | None ->
                  judged_ok := false; step_failed := true;
                  let (exp, f) = List.hd verdicts in
@@ -497,7 +536,10 @@ let check (b : block) : verdict list =
           (match strat, op_add, !prev_circ, s.circ with
            | "UnitClause", [[l]], Some pc, Some c ->
              bump "C11_unit_edit_compared";
-             let m = E.unit_edit pc (Conv.z_of_int l) in
+             (* a new variable (above IntermediateGraph.number_of_variables before the edit): unit_edit_new *)
+             let m = if abs l <= nvars_before then E.unit_edit pc (Conv.z_of_int l)
+               else (bump "C11_unit_edit_new_variable";
+                     E.unit_edit_new pc (Conv.nat_of_int nvars_before) (Conv.z_of_int l)) in
              if m = c then bump "C11_unit_edit_exact"
              else if !judged_ok then
                (* the oracle accepts every answer of this step, yet the vector is not the model's *)
